@@ -86,7 +86,7 @@ func TestC01(t *testing.T) {
 		return svc
 	}
 
-	rcheck(t, "requests", V.N(1100, 20000), func(rt *rapid.T) {
+	rcheck(t, "requests", V.N(2500, 20000), func(rt *rapid.T) {
 		s := pick(rt)
 		rc := s.gRelayRequest(rt, relayOpts{Paths: []string{"backend", "route", "static"}, MaxVias: 4, MaxRRs: 2, MaxExt: 40, MaxLong: 16384, MaxBody: 60000})
 		V.Journal(t.Name()+"/requests", rc)
@@ -119,7 +119,7 @@ func TestC01(t *testing.T) {
 		}
 	})
 
-	rcheck(t, "responses", V.N(400, 8000), func(rt *rapid.T) {
+	rcheck(t, "responses", V.N(1000, 8000), func(rt *rapid.T) {
 		s := pick(rt)
 		rc := s.gRelayResponse(rt, 40, 16384, 60000)
 		V.Journal(t.Name()+"/responses", rc)
@@ -152,7 +152,7 @@ func TestC01(t *testing.T) {
 	// pipelined requests on one TCP connection (and bursts on one UDP socket):
 	// a message that waits in the proxy's queue while later ones are decoded
 	// must still be relayed with its own bytes
-	rcheck(t, "pipelined", V.N(60, 1500), func(rt *rapid.T) {
+	rcheck(t, "pipelined", V.N(150, 1500), func(rt *rapid.T) {
 		s := pick(rt)
 		entry := rapid.IntRange(0, 1).Draw(rt, "entry")
 		l := s.in.cfg.Listens[entry]
